@@ -40,6 +40,34 @@ Theorem C19_equiv : forall ops, c_trace ops = x_trace ops.
 Proof. exact equiv_trace. Qed.
 Print Assumptions C19_equiv.
 
+(* custom types through C: the comparator / copier object the C++ repository receives from installComparator_c / installCopier_c runs
+   exactly the functions given in that call -- whatever adaptor nodes the C layer holds already (no sharing between types that
+   have one function in common), for every state of the statics *)
+Theorem C19_adaptor_fresh : forall p ad k args ty e s,
+  bind "installComparator" [TCharP; TEqFn; TStrFn] args 0%N = Some [ty; e; s] ->
+  snd (apply_sem c_installer p ad k "installComparator" (TVoid, [TCharP; TEqFn; TStrFn]) SInstallCmp args)
+  = XInstallCmp (p_sup p) (XPass ty) (XPass e) (XPass s).
+Proof. exact adaptor_fresh. Qed.
+Print Assumptions C19_adaptor_fresh.
+
+Theorem C19_copier_fresh : forall p ad k args ty c,
+  bind "installCopier" [TCharP; TCopyFn] args 0%N = Some [ty; c] ->
+  snd (apply_sem c_installer p ad k "installCopier" (TVoid, [TCharP; TCopyFn]) SInstallCopy args) = XInstallCopy (p_sup p) (XPass ty) (XPass c).
+Proof. exact copier_fresh. Qed.
+Print Assumptions C19_copier_fresh.
+
+(* the equivalence needs nothing of an installer but that: any two faithful installers give the same C++ operations *)
+Theorem C19_equiv_any_faithful_installer : forall l1 l2 b I1 I2, (forall t f, l1 t f = l2 t f) -> faithful I1 -> faithful I2 ->
+  forall ops p ad1 ad2 k, trace_from l1 b I1 p ad1 k ops = trace_from l2 b I2 p ad2 k ops.
+Proof. exact trace_ext. Qed.
+Print Assumptions C19_equiv_any_faithful_installer.
+
+(* an installer that reuses an existing adaptor node when the equality function (the copier) matches does not have the property:
+   two types sharing one equality function with their own to-string functions *)
+Theorem C19_equiv_reuse_refuted : ~ equiv_reuse_stmt.
+Proof. exact equiv_reuse_refuted. Qed.
+Print Assumptions C19_equiv_reuse_refuted.
+
 (* hence, for ANY semantics of the C++ machinery whose results have the types the forwarders' wrappers are applied to, both
    interfaces show the caller the same verdict, failure text, returned values (tag and payload, defaulting included) and output bytes *)
 Theorem C19_equiv_obs : forall (M : machine), (forall st k x, fits (wrap_of x) (r_val (snd (mexec M st k x))) = true) ->
